@@ -19,5 +19,6 @@ def std(gen, want=SHIPPED, batch=400):
 
 REGISTRY = {
     "C01": std(scen_proto.gen_C01),
+    "C02": std(scen_proto.gen_C02),
     "C03": std(scen_proto.gen_C03),
 }
